@@ -99,7 +99,14 @@ class C01Ledger(Monitor):
             pots = _pots(s) or []
             if any(s.bets):
                 self.report('terminal_bets', 'terminal_bets', f'bets {s.bets}')
-            tag = ':nobody_left' if not any(s.statuses) else ''
+            tag = ''
+            if not any(s.statuses):
+                # who took the last player out of the hand: a voluntary muck (finding F12c) or something else
+                last = next((o for o in reversed(s.operations)
+                             if type(o).__name__ in ('HoleCardsShowingOrMucking', 'HandKilling', 'Folding')
+                             and not getattr(o, 'hole_cards', None)), None)
+                tag = ':nobody_left' if type(last).__name__ == 'HoleCardsShowingOrMucking' else \
+                    f':nobody_left_after_{type(last).__name__}'
             if any(p.unraked_amount for p in pots):
                 self.report('terminal_pots', 'terminal_pots' + tag, repr(pots))
             if sum(s.payoffs) != -sum(p.raked_amount for p in pots):
